@@ -40,6 +40,9 @@ def repl_oracle(script, impl):
         if head in ('err', 'panic', 'childfail', 'bad-op', 'CRASH', 'CRASH-skipped', ''):
             probs.append('step failed: %s -> %s' % (' '.join(ws)[:60], out[:160]))
             continue
+        if head == 'hung':
+            probs.append('hung: %s did not return within 5 s (Manager.Stop / Replica.Stop or the engine Close of the replica): %s' % (' '.join(ws)[:40], out[:80]))
+            continue
         if head == 'blocked':
             probs.append('blocked: primary operation did not return within the watchdog: %s -> %s' % (' '.join(ws)[:40], out[:200]))
             continue
